@@ -192,3 +192,70 @@ def error_chain(res):
     t = res.err
     t = re.sub(r"0x[0-9a-fA-F]+", "0xN", t)
     return t
+
+
+# ---------------------------------------------------------------------------------------
+# phase of a failure: compile-time rejection vs run-time failure.  The CLI exits 1 for both; what tells them apart is the closing
+# line of the compile step.  Its wording is not promised by any property, so it is LEARNT from the binary under test: the stderr
+# lines that two different ill-typed programs share and that two run-time failures do not show (text up to the first digit).
+
+_REJECT_MARKERS = None
+_RUNTIME_MARKERS = None
+
+
+def _stderr_lines(text):
+    return [l.strip() for l in text.split("\n") if l.strip()]
+
+
+def _common_prefixes(a, b, minlen=12):
+    out = set()
+    for x in a:
+        for y in b:
+            n = 0
+            while n < len(x) and n < len(y) and x[n] == y[n]:
+                n += 1
+            k = re.match(r"[^0-9]*", x[:n]).group(0)
+            if len(k) >= minlen:
+                out.add(k)
+    return out
+
+
+def _calibrate():
+    global _REJECT_MARKERS, _RUNTIME_MARKERS
+    d = os.path.join(worker_dir(), "calib")
+    os.makedirs(d, exist_ok=True)
+    outs = []
+    # two compile failures and two run-time failures, under different file names, so that no marker depends on the name
+    for name, src in [("x.ms", 'cq: int = "s"\n'), ("other_q.ms", 'print nosuch_name_q\nprint nosuch_name_r\n'),
+                      ("x.ms", 'assert 1 == 2\n'), ("other_q.ms", 'aq = 0\nprint 7 / aq\n')]:
+        write_files(d, {name: src})
+        outs.append(_stderr_lines(run(["run", name, "-q"], d).err))
+    rej = {k for k in _common_prefixes(outs[0], outs[1]) if not any(l.startswith(k) for l in outs[2] + outs[3])}
+    rt = {k for k in _common_prefixes(outs[2], outs[3]) if not any(l.startswith(k) for l in outs[0] + outs[1])}
+    _REJECT_MARKERS = sorted(rej) or ["Error: Did not compile"]
+    _RUNTIME_MARKERS = sorted(rt) or ["******* MSCRIPT INTERPRETER FATAL RUNTIME ERROR"]
+
+
+def _has_marker(text, markers):
+    for l in text.split("\n"):
+        l = l.strip()
+        for m in markers:
+            if l.startswith(m):
+                return True
+    return False
+
+
+def compile_rejected(res):
+    """True when the run failed in the compile step (diagnostics, nothing executed)."""
+    if res.exit == 0:
+        return False
+    if _REJECT_MARKERS is None:
+        _calibrate()
+    return _has_marker(res.err, _REJECT_MARKERS)
+
+
+def runtime_banner(res):
+    """True when stderr carries the interpreter's run-time failure report."""
+    if _RUNTIME_MARKERS is None:
+        _calibrate()
+    return _has_marker(res.err, _RUNTIME_MARKERS)
